@@ -20,6 +20,7 @@ var (
 	ErrJoinTransferFailure  = errorDef("chord/membership: failed to transfer keys to joiner node", true)
 	ErrJoinInvalidSuccessor = errorDef("chord/membership: join request was routed to the wrong successor node", true)
 	ErrLeaveInvalidState    = errorDef("chord/membership: node cannot handle leave request at the moment", true)
+	ErrLeaveWrongSuccessor  = errorDef("chord/membership: leave request was sent to a node that is not the immediate successor", true)
 	ErrLeaveTransferFailure = errorDef("chord/membership: failed to transfer keys to successor node", true)
 	ErrKVStaleOwnership     = errorDef("chord/kv: processing node no longer has ownership over requested key", true)
 	ErrKVPendingTransfer    = errorDef("chord/kv: kv transfer inprogress, state may be outdated", true)
